@@ -94,7 +94,7 @@ fn case<G: CurveTag>(bytes: &[u8], col: &mut Collector, kmax: usize) -> Result<(
     let mut ch = Choices::new(bytes);
     let k = {
         // favour small lengths, but reach every k
-        let w: Vec<u32> = (0..=kmax).map(|k| [30u32, 30, 30, 25, 16, 8, 5, 4][k.min(7)]).collect();
+        let w: Vec<u32> = (0..=kmax).map(|k| [30u32, 30, 30, 25, 16, 8, 5, 4, 1, 1, 1][k.min(10)]).collect();
         ch.weighted(&w)
     };
     let n = 1usize << k;
@@ -129,7 +129,7 @@ fn case<G: CurveTag>(bytes: &[u8], col: &mut Collector, kmax: usize) -> Result<(
     let (Gv, Hv): (Vec<G>, Vec<G>) = if gens_random {
         ((0..n).map(|i| rand_point::<G>(seed * 1000 + i as u64)).collect(), (0..n).map(|i| rand_point::<G>(seed * 1000 + 500 + i as u64)).collect())
     } else {
-        let gens = bp_gens::<G>(128, 1);
+        let gens = bp_gens::<G>(n.max(128), 1);
         (gens.G(n, 1).cloned().collect(), gens.H(n, 1).cloned().collect())
     };
     let Q = rand_point::<G>(seed + 77);
@@ -240,7 +240,8 @@ fn case<G: CurveTag>(bytes: &[u8], col: &mut Collector, kmax: usize) -> Result<(
 
 fn dispatch(sub: &str, bytes: &[u8], col: &mut Collector) -> Result<(), Failure> {
     let curve = Curve::from_name(sub.split('/').nth(1).unwrap_or("")).unwrap_or(Curve::Secq);
-    with_curve!(curve, G => case::<G>(bytes, col, 7))
+    let kmax: usize = sub.split('/').nth(2).and_then(|s| s.parse().ok()).unwrap_or(7);
+    with_curve!(curve, G => case::<G>(bytes, col, kmax))
 }
 
 pub fn replay(sub: &str, bytes: &[u8], col: &mut Collector) -> Result<(), Failure> {
@@ -256,7 +257,7 @@ pub fn run(tier: &str, seed: u64) -> i32 {
         if !rep.outcome.found.is_empty() {
             break;
         }
-        let sub = format!("c10/{}", c.name());
+        let sub = format!("c10/{}/{}", c.name(), if tier == "thorough" { 10 } else { 7 });
         rep.outcome.merge(replay_corpus("C10", &sub, &|b, col| dispatch(&sub, b, col)));
         rep.outcome.merge(search(&sub, seed, n, 1200, &|b, col| dispatch(&sub, b, col)));
     }
